@@ -12,6 +12,7 @@ and (b) fuzzing every entry point of every cluster under catch_unwind with a 2 s
 limit per call.
 -/
 import PkgsrcVerif.Lemmas.Summary
+import PkgsrcVerif.Lemmas.DeweyIdx
 import PkgsrcVerif.Props.C02
 import PkgsrcVerif.Props.C04
 open M L
@@ -119,3 +120,46 @@ example : ∀ c ∈ [ApiCall.set .comment (.s []), .push .depends [], .set .depe
   intro c hc
   simp only [List.mem_cons, List.mem_nil_iff, or_false] at hc
   rcases hc with rfl | rfl | rfl | rfl | rfl | rfl <;> simp [ApiCall.Typed, valueKind, Var.kind]
+
+/-! ### the byte-indexed loop of `DeweyVersion::new` -/
+
+/-- **`DeweyVersion::new` never slices a `&str` off a character boundary, never unwraps an
+    empty iterator, and stops.**  The code keeps a BYTE index into the version text and advances
+    it by byte counts (`numstr.len()`, 1, 2, 5, 4, 3, 2, 2, `c.len_utf8()`) after testing the
+    modifiers on raw bytes; `&s[idx..]` panics unless `idx` is a character boundary within the
+    string.  For EVERY Unicode string — multi-byte characters anywhere, modifier words cut short
+    by the end of the text, non-ASCII characters right after a partial modifier — the
+    byte-indexed model `M.tokensIdx` (where each of those panics is the outcome `none`) returns
+    within `s.len() + 1` iterations, without a panic, the very token list of the
+    character-level model `M.tokens` that the correspondence check ties to the code and that
+    C01–C03/C18 reason about. -/
+theorem C17_dewey_tokeniser_index_safe (s : Str) :
+    tokensIdx s (bytesLen s + 1) 0 = some (tokens s) := by
+  have hlen : s.length ≤ bytesLen s := by
+    induction s with
+    | nil => simp [bytesLen]
+    | cons c s ih => simp only [List.length_cons, bytesLen]; have := utf8Len_pos c; omega
+  have := tokensIdx_from s.length s [] (bytesLen s + 1) (Nat.le_refl _) (by omega)
+  simpa [bytesLen] using this
+
+/-- the same from any character boundary: wherever the loop stands after consuming a prefix,
+    the slice it takes is exactly the remaining text (no panic) -/
+theorem C17_dewey_slice_on_boundary (pre suf : Str) : sliceFrom (pre ++ suf) (bytesLen pre) = some suf :=
+  sliceFrom_prefix pre suf
+
+/-- the byte-level modifier test `s.as_bytes()[..n].eq_ignore_ascii_case(word)` (with its length
+    guard) decides exactly "the first n CHARACTERS are the word's letters in either case": a
+    UTF-8 lead or continuation byte never compares equal to an ASCII letter -/
+theorem C17_dewey_byte_prefix_test (s w : Str) (hw : ∀ x ∈ w, 97 ≤ x.toNat ∧ x.toNat ≤ 122) :
+    bytesStartCI (encode s) w = startsWithCI s w :=
+  bytesStartCI_encode w hw s
+
+/-- non-vacuity: "1.0é-αlphaNB2" (two-byte characters directly before and inside a would-be
+    modifier) — and a slice taken INSIDE a character is the panic outcome of the model -/
+example : tokensIdx ['1', '.', '0', 'é', '-', 'α', 'l', 'p', 'h', 'a', 'N', 'B', '2'] 20 0 =
+      some (tokens ['1', '.', '0', 'é', '-', 'α', 'l', 'p', 'h', 'a', 'N', 'B', '2']) ∧
+    sliceFrom ['é', 'x'] 1 = none ∧ sliceFrom ['é', 'x'] 2 = some ['x'] := by
+  refine ⟨?_, by decide, by decide⟩
+  have := tokensIdx_from 13 ['1', '.', '0', 'é', '-', 'α', 'l', 'p', 'h', 'a', 'N', 'B', '2'] [] 20
+    (by decide) (by decide)
+  simpa [bytesLen] using this
